@@ -176,6 +176,9 @@ type Check struct {
 	QuickRuns, ThoroughRuns int
 	QuickSecs, ThoroughSecs int
 	Assumptions             []string
+	// MaxWorkers caps the number of worker processes (0 = no cap): for checks whose runs are
+	// memory-hungry (key derivation: scrypt with 1 GiB per call)
+	MaxWorkers int
 }
 
 var Checks = map[string]*Check{}
